@@ -36,10 +36,11 @@ RULE = ("seeded histories of 1-30 BondList operations over two lists of 0-8 atom
 TRUSTED = ["numpy np.sort/np.delete/np.append/np.cumsum/fancy indexing modelled by documented semantics",
            "networkx.Graph (as_graph view) trusted",
            "fork sandbox: a signal exit of the child is what 'terminates the process' means"]
-ASSUMPTIONS = ["atom counts stay below 2^31 (uint32/int32 arithmetic of offset_indices/concatenate is modelled without wrap; "
-               "only _to_positive_index is modelled at C width)",
+ASSUMPTIONS = ["the invariant / refinement theorems assume atom counts below 2^31 (int32 index arguments); what happens beyond "
+               "(uint32 atom count, C int running count of concatenate, uint32 wrap of offset_indices, narrow array dtypes) "
+               "is modelled by the *Full functions and stated in the _rejects/_agrees/_defect theorems",
                "memory safety is argued only through the bounds invariants proved on the model (cachedMax, index < n)"]
-LEVEL_TEXT = ("proof (Lean 4, all inputs, 38 theorems): every operation keeps both lists canonical and the cached maximum a "
+LEVEL_TEXT = ("proof (Lean 4, all inputs, 52 theorems; every size/range hypothesis has a _rejects/_agrees/_defect counterpart): every operation keeps both lists canonical and the cached maximum a "
               "bound of every degree (so get_bonds/get_all_bonds stay inside their buffers); every operation refines a "
               "reference map from sorted pairs to one type (first wins at construction, new type on update, argument on "
               "merge, disjoint union with offset, __getitem__ = relabelling by the inverse index, mask branch = index "
@@ -702,6 +703,14 @@ def _views_disagree(bl, ref):
         out.append(("canonical", f"unsorted or out-of-range pair in {arr} for {n} atoms"))
     if out:
         return out          # the per-atom views below do unchecked writes on a corrupted list
+    if n > 2 ** 32 - 1:
+        # only reachable through offset_indices: the atom count no longer converts to the uint32 the methods take
+        try:
+            bl.get_bonds(0)
+            bl.copy()
+            return []
+        except OverflowError as e:
+            return [("atom_count-beyond-uint32", f"{n} atoms: get_bonds / copy raise OverflowError ({e})")]
     deg = {}
     for i, j, _ in arr:
         deg[i] = deg.get(i, 0) + 1
@@ -917,17 +926,30 @@ OPNAME = {"add": "add_bond", "add2": "add_bond", "remove": "remove_bond", "remov
 
 def _ref_step(refs, w, as_code=False):
     """Apply one op to the reference.  Returns ('ok', None) | ('reject', ExceptionClass or None) | ('view', None).
-    'reject' = the statement requires a rejection that leaves the list unchanged (class given when it says which)."""
+    'reject' = a rejection that leaves the list unchanged is required; the class is a name or a '|'-separated set of
+    names: exactly the exceptions the documented contract allows for that input class (never "any exception")."""
     cur, aux = refs["cur"], refs["aux"]
     op = w[0]
+    if as_code:
+        # generator bookkeeping follows the code where it is known to deviate (known findings)
+        d = _dt(w)
+        narrow = d in DT_RANGE and DT_RANGE[d][1] < 2 ** 63 - 1
+        if op in ("new", "aux", "new2") and narrow and w[2] != "_" and int(w[1]) > DT_RANGE[d][1]:
+            return ("reject", None)
+        if op == "getitem" and w[1] == "arr" and narrow and cur.n > DT_RANGE[d][1]:
+            return ("reject", None)
+        if op in ("concat", "concat3") and cur.n * (2 if op == "concat3" else 1) + aux.n > INT32[1]:
+            return ("reject", None)
     if op in ("new", "aux", "new2"):
         width = 2 if op == "new2" else 3
         n = int(w[1])
+        if n > 2 ** 32 - 1:
+            return ("reject", "OverflowError")             # the atom count is a uint32
         r = Ref.construct(n, _parse_rows(w[2], width))
         if r == "index":
             return ("reject", "IndexError")
         if r == "type":
-            return ("reject", None)
+            return ("reject", "ValueError")            # "BondType … is invalid", also for negative types
         refs["aux" if op == "aux" else "cur"] = r
         return ("ok", None)
     if op == "swap":
@@ -941,7 +963,11 @@ def _ref_step(refs, w, as_code=False):
         w = [w[0], w[1], w[2], "0"] + w[3:]                               # default bond type ANY
         op = "add"
     if op == "add" and not 0 <= int(w[3]) <= 9:
-        return ("reject", None)            # two reasons to reject: the statement does not say which one wins
+        bad_index = any(cur.norm(i) is None for i in _atom_indices(w))
+        # a type >= len(BondType) is a ValueError; a negative one is refused by the unsigned store (OverflowError) or as
+        # an invalid type; with a bad index as well the statement does not say which reason wins
+        allowed = {"ValueError"} | ({"OverflowError"} if int(w[3]) < 0 else set()) | ({"IndexError"} if bad_index else set())
+        return ("reject", "|".join(sorted(allowed)))
     if op != "contains" and any(cur.norm(i) is None for i in idx):
         return ("reject", "IndexError")
     if op == "add":
@@ -970,7 +996,7 @@ def _ref_step(refs, w, as_code=False):
     elif op == "offset":
         k = int(w[1])
         if k < 0 or k > INT32[1]:
-            return ("reject", None)
+            return ("reject", "ValueError" if k < 0 and k >= INT32[0] else "OverflowError|ValueError")
         cur.m = {(i + k, j + k): t for (i, j), t in cur.m.items()}
         cur.n += k
     elif op == "rm_arom":
@@ -984,9 +1010,9 @@ def _ref_step(refs, w, as_code=False):
             return ("reject", None)        # known findings: memoryview refuses byte-swapped arrays / read-only masks
         sel = _expected_sel(cur.n, w)
         if isinstance(sel, str):
-            return ("reject", sel if sel == "IndexError" else None)
+            return ("reject", sel)                     # the class numpy itself raises for this index object
         if len(set(sel)) != len(sel):
-            return ("reject", None)                                         # documented: duplicates unsupported
+            return ("reject", "NotImplementedError")                       # documented: duplicates unsupported
         refs["cur"] = cur.select(sel)
     else:
         return ("view", None)
@@ -997,9 +1023,27 @@ def _finding_key(w, n, got):
     """Specific key for an op that was required to be rejected (or to succeed) and was not."""
     op = OPNAME.get(w[0], w[0])
     idx = _atom_indices(w)
+    d = _dt(w)
+    narrow = d in DT_RANGE and DT_RANGE[d][1] < 2 ** 63 - 1
+    if w[0] in ("new", "aux", "new2"):
+        if got == "ERR:OverflowError" and narrow and int(w[1]) > DT_RANGE[d][1] and int(w[1]) <= 2 ** 32 - 1:
+            return "C02/new/narrow-dtype-bond-array-OverflowError"
+        if got.startswith("ok") and w[0] != "new2" and any(r[2] < 0 for r in _parse_rows(w[2], 3)):
+            return "C02/new/negative-bond-type-accepted"
+        return "C02/new/mismatch"
+    if w[0] == "getitem" and w[1] == "arr" and got == "ERR:OverflowError" and narrow and n > DT_RANGE[d][1]:
+        return "C02/getitem/narrow-dtype-index-array-OverflowError"
+    if idx and w[0] != "contains" and all(-n <= i < n for i in idx) and got == "ERR:OverflowError" \
+            and any(not INT32[0] <= i <= INT32[1] for i in idx):
+        return f"C02/{op}/valid-index-outside-int32-OverflowError"
+    if w[0] in ("concat", "concat3") and got == "ERR:OverflowError":
+        return "C02/concatenate/total-atom-count-above-int32-OverflowError"
     bad = [i for i in idx if not (-n <= i < n)]
     if bad and w[0] != "contains":
-        cls = _index_class(n, bad[0])
+        first = bad[0]
+        if got == "ERR:OverflowError":
+            first = next((i for i in bad if not INT32[0] <= i <= INT32[1]), first)   # the index that overflowed
+        cls = _index_class(n, first)
         what = "crash" if got == "CRASH" else ("accepted" if got.startswith("ok") else got.replace("ERR:", ""))
         return f"C02/{op}/{cls}/{what}"
     if w[0] == "getitem" and w[1] == "arr" and _dt(w) == "be" and got == "ERR:ValueError":
@@ -1062,6 +1106,13 @@ def _oracle_inner(case):
         kind, cls = _ref_step(refs, w)
         if kind == "view":
             # contains with an in-range negative index: the statement's membership view
+            if w[0] in ("get_bonds", "getitem"):
+                # an explicit neighbour query with an index in [-n, n) (any spelling): the mapping's incident pairs
+                i = _atom_indices(w)[0]
+                want = "ok " + _pairs(refs["cur"].neighbours(refs["cur"].norm(i)))
+                got = _exec(st, w)
+                if got != want:
+                    viol.append((_finding_key(w, n, got), f"after {lines[:k]}: `{line}` -> {got}, the mapping says {want}"))
             if w[0] == "contains":
                 i, j = int(w[1]), int(w[2])
                 if refs["cur"].norm(i) is not None and refs["cur"].norm(j) is not None:
@@ -1082,7 +1133,7 @@ def _oracle_inner(case):
             got = res[1][0] if res[0] == "ok" else "CRASH"
             if kind == "reject":
                 refs.update(before)
-                ok = got.startswith("ERR:") and (cls is None or got == "ERR:" + cls)
+                ok = got.startswith("ERR:") and (cls is None or got[4:] in cls.split("|"))
                 if got.startswith("ERR:"):
                     # the child survived and raised: let the *same objects* the history goes on with see the refused
                     # call, then every view, the cached maximum and the arguments must be as before
@@ -1125,7 +1176,10 @@ def _oracle_inner(case):
         bad = _views_disagree(st.cur, refs["cur"]) + [("aux." + v, m) for v, m in _views_disagree(st.aux, refs["aux"])[:1]]
         if bad:
             v, msg = bad[0]
-            viol.append((f"C02/{OPNAME.get(w[0], w[0])}/view-{v}", f"after {lines[:k + 1]}: {v}: {msg}"))
+            key = f"C02/{OPNAME.get(w[0], w[0])}/view-{v}"
+            if w[0] == "offset" and refs["cur"].n > 2 ** 32 - 1:
+                key = "C02/offset_indices/atom-count-beyond-uint32"
+            viol.append((key, f"after {lines[:k + 1]}: {v}: {msg}"))
             break
         ch = _args_changed(st)
         if ch:
@@ -1180,8 +1234,6 @@ def _rand_index(rng, n):
     kind = rng.choice(["mask", "mask", "arr", "arr", "list", "blist", "slice", "slice", "smask"])
     if kind in ("mask", "blist", "smask"):
         bits = [rng.random() < 0.65 for _ in range(n)]
-        if kind == "smask" and n < 2:
-            kind = "mask"
         return f"getitem {kind} {_bits(bits)}" + (" @ro" if kind == "mask" and rng.random() < 0.08 else "")
     if kind in ("arr", "list"):
         sel = rng.sample(range(n), rng.randint(0, n)) if n else []
@@ -1317,8 +1369,10 @@ def _malformed_op(rng, refs):
         c = rng.random()
         if c < 0.4:
             rows[w][rng.randrange(2)] = rng.choice([m, m + 3, -m - 1, -m - 4])
-        elif c < 0.8:
+        elif c < 0.6:
             rows[w][2] = rng.choice([10, 12, 255])
+        elif c < 0.8:
+            rows[w][2] = rng.choice([-1, -7, -128])      # passes the `>= len(BondType)` test (known finding)
         else:
             rows[w][0] = m
             rows[w][2] = 10
@@ -1358,6 +1412,112 @@ def _ub_probe(rng, refs):
     return f"getitem mask {_bits(bits)}"
 
 
+def _near(rng, n):
+    """an atom index of an n-atom list, biased to both ends, either sign"""
+    return rng.choice([0, 1, 2, 5, n - 1, n - 2, n // 2, -1, -2, -n, -n + 1, rng.randrange(n), rng.randrange(-n, 0)])
+
+
+def _medium_case(rng):
+    """Lists of 127 … 40000 atoms: the atom count meets the limits of narrow integer dtypes (int8/uint8/int16/uint16) of
+    bond arrays and index arrays; views are sampled by the oracle."""
+    n = rng.choice([127, 128, 129, 255, 256, 257, 300, 32767, 32768, 40000])
+    refs = {"cur": Ref(0), "aux": Ref(0)}
+    rows = [[_near(rng, n), _near(rng, n), rng.randrange(10)] for _ in range(rng.randint(0, 4))]
+    ops = [f"new {n} {_rows_text(rows)}" + _ctor_tok(rng, rows, 0.7)]
+    _ref_step(refs, ops[0].split(), as_code=True)
+    for _ in range(rng.randint(2, 7)):
+        m = refs["cur"].n
+        if m <= SMALL_N:
+            op = _valid_op(rng, refs)
+        else:
+            k = rng.choice(["get_bonds", "getitem_int", "add", "add", "remove", "remove_to", "contains", "count", "arr", "arr",
+                            "slice", "offset", "concat", "rm_arom", "dup", "renew"])
+            i, j = _near(rng, m), _near(rng, m)
+            if k == "get_bonds":
+                op = f"get_bonds {i}" + _tok(rng, [i])
+            elif k == "getitem_int":
+                op = f"getitem int {i}" + _tok(rng, [i], 0.7)
+            elif k == "add":
+                op = f"add {i} {j} {rng.randrange(10)}" + _tok(rng, [i, j], 0.4)
+            elif k == "remove":
+                pr = rng.choice(sorted(refs["cur"].m)) if refs["cur"].m and rng.random() < 0.6 else (i % m, j % m)
+                op = f"remove {pr[0]} {pr[1]}" + _tok(rng, list(pr), 0.4)
+            elif k == "remove_to":
+                op = f"remove_to {i}" + _tok(rng, [i], 0.4)
+            elif k == "contains":
+                op = f"contains {i % m} {j % m}"
+            elif k == "arr":
+                bonded = sorted({a for pr in refs["cur"].m for a in pr})
+                pool = list(dict.fromkeys(bonded + [0, 1, m - 1, m - 2, m // 2]))
+                sel = rng.sample(pool, rng.randint(0, min(6, len(pool))))
+                sel = [a - m if rng.random() < 0.3 else a for a in sel]
+                op = f"getitem arr {_ints(sel)}" + _tok(rng, sel, 0.8, ("ro", "sr"), 0.15)
+            elif k == "slice":
+                op = rng.choice([f"getitem slice - - {max(1, m // 3)}", f"getitem slice -1 - -{max(1, m // 2)}",
+                                 f"getitem slice {m - 3} - -", f"getitem slice - 4 -", f"getitem slice -5 {m + 9} 2"])
+            elif k == "offset":
+                op = f"offset {rng.choice([0, 1, 2, 126, 200])}"
+            elif k == "concat":
+                a = rng.randint(0, 5)
+                ops.append(f"aux {a} {_rows_text(_rand_rows(rng, a))}")
+                _ref_step(refs, ops[-1].split(), as_code=True)
+                op = rng.choice(["concat", "concat3", "merge"])
+            elif k == "renew":
+                rows = [[_near(rng, m), _near(rng, m), rng.randrange(10)] for _ in range(rng.randint(1, 3))]
+                op = f"new {m} {_rows_text(rows)}" + _ctor_tok(rng, rows, 0.8)
+            else:
+                op = k
+        _ref_step(refs, op.split(), as_code=True)
+        ops.append(op)
+    return {"kind": "medium", "ops": ops}
+
+
+def _huge_case(rng):
+    """Atom counts around 2^31 and 2^32 (uint32 atom count, int32 index arguments, C int running count).  Only
+    operations that do not allocate O(n) in the code under test are used: an empty constructor, offset_indices on a
+    small list, scalar-index methods, membership, concatenate of bond-free lists, copy."""
+    H = 2 ** 31
+    refs = {"cur": Ref(0), "aux": Ref(0)}
+    if rng.random() < 0.5:
+        n = rng.choice([H - 1, H, H + 5, 2 ** 32 - 1, 2 ** 32 - 1, 2 ** 32, 2 ** 32 + 7])
+        ops = [f"new {n} _" + rng.choice(["", " @none"])]
+    else:
+        ops = ["new 3 0,1,1;1,2,2", f"offset {rng.choice([H - 1, H - 1, H - 4])}"]
+        if rng.random() < 0.5:
+            ops.append(f"offset {rng.choice([H - 1, 7, H - 2])}")
+    for op in ops:
+        _ref_step(refs, op.split(), as_code=True)
+    for _ in range(rng.randint(2, 6)):
+        n = refs["cur"].n
+        cand = [-1, 0, 1, n - 1, n - 2, n, -n, -n - 1, H - 1, H, H + 1, -H, -H - 1, 2 ** 32 - 1]
+        i, j = rng.choice(cand), rng.choice(cand)
+        k = rng.choice(["get_bonds", "get_bonds", "getitem_int", "remove", "remove_to", "contains", "count", "dup", "swap",
+                        "rm_order", "remove_bonds", "concat", "offset", "eq"])
+        if k == "get_bonds":
+            op = f"get_bonds {i}"
+        elif k == "getitem_int":
+            op = f"getitem int {i}"
+        elif k == "remove":
+            op = f"remove {i} {j}"
+        elif k == "remove_to":
+            op = f"remove_to {i}"
+        elif k == "contains":
+            op = f"contains {abs(i)} {abs(j)}"
+        elif k == "concat":
+            a = rng.choice([0, 3, H - 1, H, 2 ** 30, 2 ** 32 - 1])
+            ops.append(f"aux {a} _")
+            _ref_step(refs, ops[-1].split(), as_code=True)
+            op = rng.choice(["concat", "concat3"])
+        elif k == "offset":
+            kk = rng.choice([0, 1, 5])
+            op = f"offset {kk}" if n + kk <= 2 ** 32 - 1 or refs["cur"].m else "count"
+        else:
+            op = k
+        _ref_step(refs, op.split(), as_code=True)
+        ops.append(op)
+    return {"kind": "huge", "ops": ops}
+
+
 def cases(rng, tier):
     n_valid, n_invalid = (700, 300) if tier == "quick" else (9000, 3000)
     for _ in range(n_valid):
@@ -1369,8 +1529,9 @@ def cases(rng, tier):
             op = _malformed_op(rng, refs)
             _ref_step(refs, op.split(), as_code=True)
             ops.append(op)
-            if op.startswith("getitem mask"):
-                break                              # accepted by the code with another atom count: end of the history
+            if op.startswith("getitem mask") or (op.startswith("new ") and any(x.startswith("-") for x in
+                                                     [r.split(",")[2] for r in op.split()[2].split(";") if r.count(",") == 2])):
+                break                              # accepted by the code although the mapping refuses it: end of the history
             if rng.random() < 0.4:
                 op = _valid_op(rng, refs)          # the history goes on after a rejected op
                 _ref_step(refs, op.split(), as_code=True)
@@ -1379,6 +1540,10 @@ def cases(rng, tier):
         if rng.random() < 0.5:
             case["probes"] = [_ub_probe(rng, refs)]
         yield case
+    for _ in range(70 if tier == "quick" else 800):
+        yield _medium_case(rng)
+    for _ in range(40 if tier == "quick" else 400):
+        yield _huge_case(rng)
     if tier == "thorough":
         yield from _exhaustive()
 
